@@ -215,3 +215,57 @@ func VH_C13_S5_placement() {
 	}
 	s.close()
 }
+
+// C13-S5e / C03: colliding keys, a MERGED hint index built by an ordinary merge, and a GC pass
+// (with or without merging) whose destination is an earlier short file covered by that merged
+// index: the older version of a colliding key recorded in the merged index must never be served
+// once its newer record has been relocated; reads are checked twice after the pass and again
+// after a restart.
+func VH_C13_S5_merged_index_gc() {
+	collideHash()
+	s := newScen(768, false, "ca", "cb", "kx")
+	s.distinct = true
+	s.noVersion = map[string]bool{"ca": true, "cb": true}
+	s.setS("ca") // file0, left short by the restart
+	if vrt.Bool("two-in-file0") {
+		s.setS("kx")
+	}
+	s.reopen(0)
+	if vrt.Bool("ordinary-merge-after-restart") {
+		s.bkt().hints.Merge(false) // merged index over the chunks dumped so far
+	}
+	first, second := "ca", "cb"
+	if vrt.Bool("cb-first") {
+		first, second = "cb", "ca"
+	}
+	// layout 0: both colliding records in the collected file; layout 1: the second one in the
+	// head file (its hint stays in a hint buffer during the pass)
+	sameFile := vrt.Choice("second-colliding-key-in-head", 2) == 0
+	s.setS(first)
+	if sameFile {
+		s.setS(second)
+		s.setS("kx") // file1 full
+		s.setS("kx") // head
+	} else {
+		s.setS("kx")
+		s.setS("kx") // file1 full
+		s.setS(second) // head
+	}
+	s.flush()
+	readBefore := vrt.Bool("read-before-gc")
+	if readBefore {
+		s.checkAll("before-gc") // reading enters the pair into the collision table
+	}
+	gcMerge := vrt.Bool("merge")
+	s.gc(1, 1, gcMerge)
+	// F25: a pass WITHOUT hint merging drops (or aliases) the record of a colliding key that does
+	// not own the tree slot when both records sit in the collected file and the collision was
+	// never recorded (keys not read since written, no merge): GC clears the file's hints
+	// before scanning it, so nothing tells it that the hash is shared
+	known := sameFile && !gcMerge && !readBefore
+	s.checkAllKnown("after-gc", "F25", known)
+	s.checkAllKnown("after-gc-second-read", "F25", known)
+	s.reopen(vrt.Choice("rm", 2) * 7)
+	s.checkAllKnown("after-gc-restart", "F25", known)
+	s.close()
+}
